@@ -114,6 +114,9 @@ type input struct {
 }
 
 func (in input) sender() string {
+	if in.from == "-" {
+		return "" // the envelope carries no from at all
+	}
 	if in.from != "" {
 		return in.from
 	}
@@ -151,6 +154,12 @@ func alphabet() []input {
 	for _, s := range []string{"established", "finishing", "finished", "failed"} {
 		a = append(a, input{name: s, kind: "session", state: s, id: "echo"})
 	}
+	// acceptable credentials in a session envelope whose state is past authenticating
+	a = append(a, input{name: "established+guest-credentials", kind: "session", state: "established", id: "echo", scheme: "guest", auth: "obj"})
+	a = append(a, input{name: "finishing+plain-credentials", kind: "session", state: "finishing", id: "echo", scheme: "plain", auth: "obj"})
+	// credentials without any sender
+	a = append(a, input{name: "auth(guest;nofrom)", kind: "session", state: "authenticating", id: "echo", scheme: "guest", auth: "obj", from: "-"})
+	a = append(a, input{name: "auth(plain;nofrom)", kind: "session", state: "authenticating", id: "echo", scheme: "plain", auth: "obj", from: "-"})
 	a = append(a, input{name: "message", kind: "data", rawJSON: `{"id":"m1","type":"text/plain","content":"hi"}`})
 	a = append(a, input{name: "notification", kind: "data", rawJSON: `{"id":"m1","event":"received"}`})
 	a = append(a, input{name: "request", kind: "data", rawJSON: `{"id":"c1","method":"get","uri":"/ping"}`})
@@ -227,7 +236,7 @@ func (in input) bytes(sid string) []byte {
 	if in.auth != "" {
 		m["authentication"] = authObjKind(in.scheme, in.auth)
 	}
-	if in.state == "authenticating" {
+	if (in.state == "authenticating" || in.scheme != "") && in.sender() != "" {
 		m["from"] = in.sender()
 	}
 	b, _ := json.Marshal(m)
@@ -330,7 +339,7 @@ func typedEnvelope(in input, sid string) interface{} {
 	if in.auth != "" {
 		ses.Authentication = authObjTyped(in)
 	}
-	if in.state == "authenticating" {
+	if (in.state == "authenticating" || in.scheme != "") && in.sender() != "" {
 		ses.From = lime.ParseNode(in.sender())
 	}
 	return ses
